@@ -33,7 +33,8 @@ REQUIRED_COUNTERS = {"cases_with_insert": {"quick": 3000, "thorough": 50000},
                      "ambiguous_both_readings": {"quick": 10, "thorough": 100},
                      "none_yielded_by_frame_iterators": {"quick": 300, "thorough": 3000},
                      "multiplying_cycle_cases": {"quick": 50, "thorough": 500},
-                     "frame_iterators_that_are_not_generators": {"quick": 1000, "thorough": 10000}}
+                     "frame_iterators_that_are_not_generators": {"quick": 1000, "thorough": 10000},
+                     "elaborate_results_that_are_deques": {"quick": 200, "thorough": 2000}}
 SHARD_TIMEOUT = {"quick": 400, "thorough": 5400}
 EXHAUSTIVE = {"quick": False, "thorough": False}
 
@@ -314,6 +315,7 @@ def worker(spec):
 
     ACT = {}
     SINGLE = {"v": False}
+    DEQUE = {"v": False}
     EMPTY = {"v": ()}
 
     def reg(i):
@@ -328,6 +330,11 @@ def worker(spec):
             if kind == "replace":
                 return items[0] if (len(items) == 1 and SINGLE["v"]) else tuple(items)
             if kind == "insert":
+                if DEQUE["v"]:
+                    # "a sequence of objects": any Sequence will do, e.g. a deque (which cannot be sliced)
+                    import collections as _c
+                    res.count("elaborate_results_that_are_deques")
+                    return _c.deque(list(items) + [nxt])
                 return tuple(items) + (nxt,) if SINGLE["v"] else list(items) + [nxt]
 
     for i in range(NF):
@@ -500,6 +507,7 @@ def worker(spec):
                     if kind == "prune":
                         res.count("cases_with_prune_by_inserted")
             SINGLE["v"] = rng.random() < 0.5
+            DEQUE["v"] = rng.random() < 0.15
             EMPTY["v"] = rng.choice(((), [], PRUNE))
             # insert on the innermost frame: find frames that end up last is model-dependent; just count
             m = run_model(root, is_frame, unwrap_spec, ACT)["A"]
